@@ -20,6 +20,7 @@ WHY = {
  ('C06', 'C03'): 'after partial evaluation the dependency functions must not mention fixed variables (seed C06-15)',
  ('C07', 'C20'): 'readable artifacts need the published media types, plain decoding and unchanged bytes (seeds C07-4, C07-7, C07-8, C07-12, C07-16)',
  ('C07', 'C15'): 'a field kept for messages of earlier releases is readable only through its fallback accessor (seed C07-10)',
+ ('C09', 'C14'): 'only when a penalty method calls relax_constraint (RELIES_IF): a `while let Some(c) = constraints.first() { relax_constraint(c.id, ..)? }` loop is read through the summary of relax_constraint that C14 decides (refactoring C09-106)',
  ('C09', 'C02'): 'the penalty objective is built with `weight * g`, `g * g`, `f + ..` (seed C09-12)',
  ('C10', 'C03'): 'with_parameters is partial evaluation (seeds C10-2, C10-12, C10-15)',
  ('C11', 'C08'): 'the binary-only refusal reads the used-id kernel (seed C11-5)',
